@@ -4,6 +4,8 @@ import PdbVerif.Driver.BJson
 import PdbVerif.Spec.C03
 import PdbVerif.Spec.C04
 import PdbVerif.Spec.C17
+import PdbVerif.Spec.C15
+import PdbVerif.Spec.C19
 
 namespace Driver.SpecB
 open Lean Driver Driver.B Tbl
@@ -26,6 +28,75 @@ def runHist (db : Db) : List Tbl.Op → List Json
     | .ok db' => Json.mkObj [("out", "ok"), ("db", dbJ db')] :: runHist db' rest
     | .reject => Json.mkObj [("out", "reject"), ("db", dbJ db)] :: runHist db rest
     | .outside => (op :: rest).map (fun _ => Json.mkObj [("out", "outside")])
+
+/-- the reference tables of a family of objects: every object evolves by the reference model of C04 on its own
+    tables; a derived object starts with the round-tripped snapshot of the selected atoms -/
+def specDerive (w : List Obj) : WOp → Option (Option Obj)        -- none = outside; some none = must raise
+  | .modify _ _ => none
+  | .deriveSub k kw =>
+    match w[k]? with
+    | none => none
+    | some o =>
+      if o.db.nModel > 0 then none else
+      let tabs := match o.kind with | .single => o.db.tabs.take 1 | .many => o.db.tabs
+      match tabs.mapM (fun t => (Spec.derivedTable roundtripRepresentable o.db.extra t.rows kw).map (fun T => ({ name := t.name, rows := T } : Tab))) with
+      | none => some none
+      | some ts => if ts.isEmpty || ts.any (fun t => t.rows.isEmpty) then some none
+                   else some (some { kind := o.kind, db := { tabs := ts } })
+  | .deriveInterface k =>
+    match w[k]? with
+    | none => none
+    | some o =>
+      if o.db.nModel > 0 then none else
+      match o.db.table? "atom".toList with
+      | none => some none
+      | some T => if T.isEmpty then some none
+                  else some (some { kind := .single, db := { tabs := [{ name := "atom".toList, rows := roundtripRepresentable T }] } })
+  | .deriveMany ks =>
+    if ks.isEmpty then some none else
+    match ks.zipIdx.mapM (fun (ki : Nat × Nat) => match w[ki.1]? with
+        | none => none
+        | some o => if o.db.nModel > 0 then none else
+          (o.db.table? "atom".toList).map (fun T => ({ name := (if ki.2 = 0 then "ATOM" else s!"ATOM{ki.2}").toList, rows := roundtripRepresentable T } : Tab))) with
+    | none => none
+    | some ts => if ts.any (fun t => t.rows.isEmpty) then some none else some (some { kind := .many, db := { tabs := ts } })
+
+def runWorld (w : List Obj) : List WOp → List Json
+  | [] => []
+  | op :: rest =>
+    let outside := (op :: rest).map (fun _ => Json.mkObj [("out", "outside")])
+    match op with
+    | .modify k m =>
+      match w[k]? with
+      | none => outside
+      | some o =>
+        match Spec.step o.db m with
+        | .ok db' => let w' := w.set k { o with db := db' }
+                     Json.mkObj [("out", "ok"), ("objs", worldJ w')] :: runWorld w' rest
+        | .reject => Json.mkObj [("out", "reject"), ("objs", worldJ w)] :: runWorld w rest
+        | .outside => outside
+    | d =>
+      match specDerive w d with
+      | none => outside
+      | some none => Json.mkObj [("out", "reject"), ("objs", worldJ w)] :: runWorld w rest
+      | some (some o) => Json.mkObj [("out", "ok"), ("objs", worldJ (w ++ [o]))] :: runWorld (w ++ [o]) rest
+
+def specMatchCol (k : Py.Str) : Option StdCol := StdCol.all.find? (fun c => Py.lower c.pyName == Py.lower k)
+
+/-- the property's intersection, per structure, projected on the requested attributes; "OUTSIDE" when the keys
+    are not unique within a structure (the property's quantifier) or a name is not an attribute -/
+def specIntersection (db : Db) (column : Py.Str) (mnames : List Py.Str) : Json :=
+  let colNames := if column = "*".toList then StdCol.all.map StdCol.pyName else Py.splitOn ',' column
+  match mnames.mapM specMatchCol, colNames.mapM (fun n => resolve db.extraNames (Py.strip n)) with
+  | some m, some cols =>
+    let tables := db.tabs.map (·.rows)
+    if cols.contains .rowID || !db.extra.isEmpty then "OUTSIDE"
+    else if !tables.all (fun T => decide ((T.map (Spec.keyOf m)).Nodup)) then "OUTSIDE"
+    else
+      let tuples := Spec.intersection m tables
+      .arr ((List.range tables.length).map (fun it =>
+        Json.arr (tuples.map (fun tup => Json.arr ((cols.map (fun c => cell c 0 (tup.getD it default))).map valJ).toArray)).toArray)).toArray
+  | _, _ => "REJECTED"
 
 def op (name : String) (j : Json) : Except String (Option Json) := do
   match name with
@@ -54,6 +125,14 @@ def op (name : String) (j : Json) : Except String (Option Json) := do
     let db ← dbOfJson (← j.getObjVal? "db")
     let ops ← (← jArr j "ops").toList.mapM opOfJson
     pure (some (.arr (runHist db ops).toArray))
+  | "intersection" =>
+    let db ← dbOfJson (← j.getObjVal? "db")
+    let m ← (← jArr j "match").toList.mapM (fun x => do let s ← asStr x; pure s.toList)
+    pure (some (specIntersection db (← strOf j "column") m))
+  | "world" =>
+    let objs ← (← jArr j "objs").toList.mapM objOfJson
+    let ops ← (← jArr j "ops").toList.mapM wopOfJson
+    pure (some (.arr (runWorld objs ops).toArray))
   | _ => pure none
 
 end Driver.SpecB
